@@ -78,6 +78,10 @@ def mig_route(route, v):
     raise ValueError(route)
 
 
+def rng_n(rq):
+    return 2 if rq[4] == 'tree_height' else 3
+
+
 def request(rq):
     t = rq[0]
     C = pg.Coalescent
@@ -94,6 +98,10 @@ def request(rq):
         return f
     if t == 'RRecombinationKeyword': return lambda: C(n=2, loci=pg.LocusConfig(n=2), recombination_rate=rq[1]).tree_height.mean
     if t == 'RSfsTwoLoci': return lambda: C(n=3, loci=rq[1]).sfs.mean.data
+    if t == 'RMultipleMergerLoci' and len(rq) > 3:
+        mdl = {'dirac': lambda: pg.DiracCoalescent(psi=0.5, c=1.0), 'dirac_unscaled': lambda: pg.DiracCoalescent(psi=0.25, c=2.0, scale_time=False),
+               'beta': lambda: pg.BetaCoalescent(alpha=1.25, scale_time=False)}[rq[3]]
+        return lambda: getattr(C(n=rng_n(rq), loci=pg.LocusConfig(n=rq[2], recombination_rate=0.5) if rq[2] == 2 else 1, model=mdl()), rq[4]).mean
     if t == 'RMultipleMergerLoci':
         return lambda: C(n=3, loci=rq[2], model=pg.BetaCoalescent(alpha=1.5) if rq[1] else pg.StandardCoalescent()).tree_height.mean
     if t == 'RConstructTimes': return lambda: C(n=3, start_time=rq[1], end_time=rq[2]).tree_height.mean
